@@ -483,8 +483,10 @@ func r7ReplaceNeedsExisting(w *World, r *Report, rule string) {
 				if isCount(side) {
 					return a.set.contains(0), true
 				}
+				if c, ok := side.(*ssa.Call); ok && c.Call.IsInvoke() && nm(c.Call.Method) == "Type" && len(c.Call.Args) == 0 {
+					return false, true // the statement kind is not `unknown`
+				}
 			}
-			return false, true // the statement kind is not `unknown`
 		}
 		return false, false
 	})
@@ -828,12 +830,16 @@ func round7(w *World, r *Report, prop string) {
 	case "C02":
 		r.Rule("R02.12", "a run starts from an empty path: no package-level channel, pool or synchronised map in the xpath packages hands a path stack (or any other per-run object) from one run to the next (same analysis as R06.9) — a recycled stack of a run that was cut short carries its path into the next relative path", 1)
 		r.guard("R02.12", func() { r6NoHandOver(w, r, "R02.12") })
+		r.Rule("R02.13", "the keys of a step are attached once, when all its predicates are complete: in the expression grammar PredicatesStart and PredicatesEnd enclose PredicateSet in the productions of Step, and no production of PredicateSet contains them", 1)
+		r.guard("R02.13", func() { r7PredicateSetBracketed(w, r, "R02.13") })
 	case "C03":
 		r.Rule("R03.11", "acceptance does not depend on how many brackets came before: the expression lexer adds no state of its own to the common lexer (struct exprLex has the embedded CommonLex and nothing else)", 1)
 		r.guard("R03.11", func() { r7WrapperLexerStateless(w, r, "R03.11") })
 	case "C04":
 		r.Rule("R04.26", "a name is a function name or a node type only when '(' follows (XPath 1.0 §3.7): every function-class token LexName returns (FUNC, TEXTFUNC, CURRENTFUNC, DEREFFUNC, NODETYPE) is returned under the look-ahead for '('", 3)
 		r.guard("R04.26", func() { r7FunctionTokensNeedParen(w, r, "R04.26") })
+		r.Rule("R04.27", "an unterminated token is an error wherever the input ends: every way out of ConstructToken has either read on with Next() or set an error (the end of input is detected in the collection loop, which no path may bypass)", 1)
+		r.guard("R04.27", func() { r7TokenEndDetected(w, r, "R04.27") })
 	case "C05":
 		r.Rule("R05.15", "a leafref predicate is evaluated only in the state its instructions were written for: LRefEquals raises its error unless exactly one key name element is pending", 1)
 		r.guard("R05.15", func() { r7ExactlyOneKeyName(w, r, "R05.15") })
@@ -934,4 +940,84 @@ func r7IdentityrefComparesVal(w *World, r *Report, rule string) {
 		panic(undecided{"identityref.Validate: comparison with the identity's name"})
 	}
 	r.Check(why == "", rule, "identityref.Validate compares with Identity.Val", f.Pos(), "id.Val == value", why+": the module-qualified value the type advertises for an identity of another module is rejected and its bare name accepted")
+}
+
+// r7PredicateSetBracketed (R02.13): the keys of a step are attached when the
+// step's whole predicate set is complete — in the expression grammar the
+// markers PredicatesStart / PredicatesEnd stand around PredicateSet in the
+// productions of Step, never around the single predicates.
+func r7PredicateSetBracketed(w *World, r *Report, rule string) {
+	g := w.Gram["expr"]
+	if g == nil {
+		panic(undecided{"expression grammar"})
+	}
+	n := 0
+	why := ""
+	for _, p := range g.Prods {
+		var names []string
+		for _, s := range p.RHS {
+			names = append(names, s.Name)
+		}
+		for i, s := range names {
+			if s != "PredicateSet" || p.LHS == "PredicateSet" {
+				continue
+			}
+			n++
+			if i == 0 || names[i-1] != "PredicatesStart" || i+1 >= len(names) || names[i+1] != "PredicatesEnd" {
+				why = "in `" + p.String() + "` the predicate set is not enclosed by PredicatesStart … PredicatesEnd"
+			}
+		}
+		if p.LHS == "PredicateSet" {
+			for _, s := range names {
+				if s == "PredicatesStart" || s == "PredicatesEnd" {
+					why = "`" + p.String() + "` opens or closes the key collection for a single predicate"
+				}
+			}
+		}
+	}
+	if n == 0 {
+		panic(undecided{"expression grammar: PredicateSet in a step"})
+	}
+	r.Check(why == "", rule, "the keys of a step are attached once, after all its predicates", token.NoPos, "Step → … PredicatesStart PredicateSet PredicatesEnd", why+": the keys of earlier predicates are already on the step when a later predicate copies the path so far, so an operand `../y` of the second predicate is resolved below a keyed element, and the node asked for depends on the order of the predicates")
+}
+
+// r7TokenEndDetected (R04.27): ConstructToken finds the end of every token it
+// is asked to collect — each way out has either read on (Next) or set an error.
+func r7TokenEndDetected(w *World, r *Report, rule string) {
+	f := w.SSAFunc(w.Method("xpath", "CommonLex", "ConstructToken"))
+	next := w.SSAFunc(w.Method("xpath", "CommonLex", "Next"))
+	setErr := w.SSAFunc(w.Method("xpath", "CommonLex", "SetError"))
+	if f == nil || next == nil || setErr == nil {
+		panic(undecided{"CommonLex.ConstructToken / Next / SetError"})
+	}
+	var marks []*ssa.BasicBlock
+	for _, b := range f.Blocks {
+		for _, in := range b.Instrs {
+			if c, ok := in.(*ssa.Call); ok && (c.Call.StaticCallee() == next || c.Call.StaticCallee() == setErr || (c.Call.IsInvoke() && (nm(c.Call.Method) == "Next" || nm(c.Call.Method) == "SetError"))) {
+				marks = append(marks, b)
+			}
+		}
+	}
+	bad := token.NoPos
+	n := 0
+	for _, b := range f.Blocks {
+		ret, ok := b.Instrs[len(b.Instrs)-1].(*ssa.Return)
+		if !ok {
+			continue
+		}
+		n++
+		covered := false
+		for _, m := range marks {
+			if m == b || m.Dominates(b) {
+				covered = true
+			}
+		}
+		if !covered {
+			bad = firstValid(ret.Pos(), f.Pos())
+		}
+	}
+	if n == 0 {
+		panic(undecided{"ConstructToken: return"})
+	}
+	r.Check(!bad.IsValid(), rule, "ConstructToken reads on or reports on every way out", firstValid(bad, f.Pos()), "Next() or SetError() before every return", "a way out of ConstructToken neither reads the next rune nor sets an error: the end of input inside a token goes unnoticed there (an opening quote as the last character of an expression yields the literal '' instead of an error)")
 }
